@@ -206,10 +206,47 @@ impl Ft {
 pub struct Cell {
     pub fam: Fam,
     pub ft: Ft,
-    #[serde(default)]
+    #[serde(default, with = "fvec")]
     pub p: Vec<f64>,
     #[serde(default)]
     pub ip: Vec<u64>,
+}
+
+/// parameter vectors in replay files: finite values as JSON numbers, non-finite ones as the strings
+/// "inf" / "-inf" / "nan" (JSON has no literal for them and serde_json would write null)
+mod fvec {
+    use serde::de::Error;
+    use serde::{Deserialize, Deserializer, Serialize, Serializer};
+    #[derive(Serialize, Deserialize)]
+    #[serde(untagged)]
+    enum Item {
+        Num(f64),
+        Txt(String),
+        Null(()),
+    }
+    pub fn serialize<S: Serializer>(v: &[f64], s: S) -> Result<S::Ok, S::Error> {
+        let items: Vec<Item> = v
+            .iter()
+            .map(|&x| if x.is_finite() { Item::Num(x) } else if x.is_nan() { Item::Txt("nan".into()) } else if x > 0.0 { Item::Txt("inf".into()) } else { Item::Txt("-inf".into()) })
+            .collect();
+        items.serialize(s)
+    }
+    pub fn deserialize<'de, D: Deserializer<'de>>(d: D) -> Result<Vec<f64>, D::Error> {
+        let items = Vec::<Item>::deserialize(d)?;
+        items
+            .into_iter()
+            .map(|i| match i {
+                Item::Num(x) => Ok(x),
+                Item::Txt(t) => match t.as_str() {
+                    "inf" => Ok(f64::INFINITY),
+                    "-inf" => Ok(f64::NEG_INFINITY),
+                    "nan" => Ok(f64::NAN),
+                    o => Err(D::Error::custom(format!("bad float '{o}'"))),
+                },
+                Item::Null(()) => Err(D::Error::custom("null parameter (non-finite value written by an older version)")),
+            })
+            .collect()
+    }
 }
 
 impl Cell {
